@@ -1,0 +1,15 @@
+//go:build verif
+// +build verif
+
+package api
+
+// Accessors for the verification harness (/verif). Compiled only with -tags verif.
+var (
+	VerifGetIPAccessControlFunc   = getIPAccessControlFunc
+	VerifAccessControlHandler     = accessControlHandler
+	VerifWorkSpaceInfo2Proto      = workSpaceInfo2ProtoWorkSpace
+	VerifWorkSpaceInfo2ProtoV2    = workSpaceInfo2ProtoWorkSpaceV2
+	VerifGetBindingTarget         = getBindingTarget
+	VerifConcurrentRequestHandler = concurrentRequestHandler
+	VerifMaxBytesHandler          = maxBytesHandler
+)
